@@ -48,6 +48,11 @@ CHECKS = {
             "For each program the bundle must equal: sorted closure of the RUN graph (library parsed by the reference BASIC09 parser), each once, program last; all RUNs resolve; placeholders replaced by the requested size; user procedure identical to the dependency-free output.",
             "Trusted: call graph from vf/b09/syntax.py parse of ecb.b09; OS-9 modules gfx, gfx2, syscall, inkey.",
             "DESIGN.md §2 C13"),
+    "C14": ("model_checking",
+            "bounded-exhaustive enumeration of RUN-producing programs (catalogue x contexts, templates x operand shapes x contexts, special constructs) + every RUN inside the library, checked against PARAM/TYPE declarations parsed from the live library",
+            "Every RUN of a bundled procedure in every enumerated output and in ecb.b09 itself is checked for existence, arity and string/numeric/record kind against the parsed PARAM lists; prologue TYPE declarations are compared field for field with the library's.",
+            "Trusted: vf/b09/syntax.py + three-kind typer vf/b09/typer.py. Outputs that do not parse are examined textually for empty/missing arguments.",
+            "DESIGN.md §2 C14"),
 }
 
 PENDING_REASON = "check not built yet in this revision (work in progress; will be claimed when its explorer exists)"
